@@ -502,3 +502,126 @@ func (c *Ctx) TRVSkip(rule string) []report.Obligation {
 		"skip and what it calls read only the options and the immutable graph structure", "the skip decision reads state that changes during the walk: "+strings.Join(bad2, ", ")+"; which vertices are visited then depends on direction and completion order"))
 	return out
 }
+
+// TRVCount (TRV-8): the coordinator of walk terminates exactly when every vertex
+// was handed over: its counter starts at len(vertices), is decremented by one
+// per received vertex (once, in the receive arm of the select), and the
+// coordinator returns when it reaches zero.
+func (c *Ctx) TRVCount(rule string) []report.Obligation {
+	var out []report.Obligation
+	ws := c.graphFuncs("graph.walk")
+	if len(ws) == 0 {
+		return []report.Obligation{anchorViolation(rule, "graph.walk")}
+	}
+	walk := ws[0]
+	sps := spawnsIn(walk)
+	if len(sps) != 1 || sps[0].Closure == nil {
+		return []report.Obligation{bad(rule, "walk :: one coordinator closure", c.P.Pos(walk.Pos()), fmt.Sprintf("%d closures spawned by walk", len(sps)))}
+	}
+	co := sps[0].Closure
+	// the counter: a captured cell of integer type that the closure stores to
+	var cell *ssa.FreeVar
+	var decs []*ssa.Store
+	for _, b := range co.Blocks {
+		for _, in := range b.Instrs {
+			st, ok := in.(*ssa.Store)
+			if !ok {
+				continue
+			}
+			fv, ok := st.Addr.(*ssa.FreeVar)
+			if !ok || !isIntType(fv.Type().(*types.Pointer).Elem()) {
+				continue
+			}
+			cell = fv
+			decs = append(decs, st)
+		}
+	}
+	if cell == nil {
+		return []report.Obligation{bad(rule, "walk$coordinator :: counter", c.P.Pos(co.Pos()), "the coordinator does not update a captured integer counter")}
+	}
+	okDec := len(decs) == 1
+	if okDec {
+		bo, isB := decs[0].Val.(*ssa.BinOp)
+		okDec = isB && bo.Op == token.SUB
+		if okDec {
+			k, isC := constInt(bo.Y)
+			u, isU := bo.X.(*ssa.UnOp)
+			okDec = isC && k == 1 && isU && u.X == ssa.Value(cell)
+		}
+	}
+	// in the receive arm: the store's block is control dependent on the select's chosen index
+	inRecv := false
+	if okDec {
+		for _, d := range prog.Info(co).TransitiveControlDeps(decs[0].Block()) {
+			if iff, ok := d.Branch.Instrs[len(d.Branch.Instrs)-1].(*ssa.If); ok {
+				if bo, ok := iff.Cond.(*ssa.BinOp); ok {
+					if ex, ok := bo.X.(*ssa.Extract); ok {
+						if _, isSel := ex.Tuple.(*ssa.Select); isSel && ex.Index == 0 {
+							inRecv = true
+						}
+					}
+				}
+			}
+		}
+	}
+	out = append(out, verdict(okDec && inRecv, rule, "walk$coordinator :: one decrement per received vertex", c.P.Pos(co.Pos()),
+		"the captured counter is decremented by exactly 1, once, in the receive arm of the select", "the coordinator's counter is not decremented exactly once per received vertex: it stops early (visits are abandoned) or never (walk hangs)"))
+	// returns when zero
+	zero := false
+	for _, r := range returnsOf(co) {
+		if factHolds(r.Block(), func(cond ssa.Value, val bool) bool {
+			bo, ok := cond.(*ssa.BinOp)
+			if !ok {
+				return false
+			}
+			k, isC := constInt(bo.Y)
+			if !isC || !isCounter(bo.X, cell) {
+				return false
+			}
+			// every spelling of "the counter is zero" for a counter that only counts down from a positive value
+			switch {
+			case val && (bo.Op == token.EQL || bo.Op == token.LEQ) && k == 0, val && bo.Op == token.LSS && k == 1:
+				return true
+			case !val && (bo.Op == token.NEQ || bo.Op == token.GTR) && k == 0, !val && bo.Op == token.GEQ && k == 1:
+				return true
+			}
+			return false
+		}) {
+			zero = true
+		}
+	}
+	out = append(out, verdict(zero, rule, "walk$coordinator :: stops when the counter reaches zero", c.P.Pos(co.Pos()),
+		"a return of the coordinator lies on the `counter == 0` edge", "the coordinator does not stop when every vertex was handed over"))
+	// initial value = len(g.vertices)
+	init := false
+	if bd, ok := c.bindingOf(cell).(*ssa.Alloc); ok {
+		for _, r := range *bd.Referrers() {
+			if st, ok := r.(*ssa.Store); ok && st.Addr == ssa.Value(bd) && derivedFromLen(st.Val, 3) {
+				if call, ok := st.Val.(*ssa.Call); ok && loadedField(call.Call.Args[0]) == "vertices" {
+					init = true
+				}
+			}
+		}
+	}
+	out = append(out, verdict(init, rule, "walk :: counter starts at the number of vertices", c.P.Pos(walk.Pos()),
+		"expect := len(g.vertices)", "the counter is not initialised with the number of vertices"))
+	return out
+}
+
+// isCounter reports whether v is the value of the captured counter cell: a load
+// of it, or the decremented value just stored to it.
+func isCounter(v ssa.Value, cell *ssa.FreeVar) bool {
+	switch v := v.(type) {
+	case *ssa.UnOp:
+		return v.Op == token.MUL && v.X == ssa.Value(cell)
+	case *ssa.BinOp:
+		if v.Op == token.SUB {
+			for _, r := range *v.Referrers() {
+				if st, ok := r.(*ssa.Store); ok && st.Addr == ssa.Value(cell) && st.Val == ssa.Value(v) {
+					return true
+				}
+			}
+		}
+	}
+	return false
+}
